@@ -100,9 +100,9 @@ def judge_history(typ, c, tc, recs, oracle, sizes, res, variant, memo):
 
 def core_sequences():
     return [
-        ('wellcond', [0.3, -1.7, 2.9, 0.8]),
-        ('offset1e9', [1e9 + 0.25, 1e9 + 3.5, 1e9 - 2.125, 1e9 + 7.0]),
-        ('ties', [2.0, 2.0, -1.0, 2.0]),
+        ('wellcond', [0.3, -1.7, 2.9, 0.8, -0.45]),
+        ('offset1e9', [1e9 + 0.25, 1e9 + 3.5, 1e9 - 2.125, 1e9 + 7.0, 1e9 + 0.375]),
+        ('ties', [2.0, 2.0, -1.0, 2.0, -1.0]),
     ]
 
 
@@ -240,7 +240,7 @@ def run(tier, seed):
     if tier == 'quick':
         nmax, kmax, nseq, variants, mult = 4, 4, 2400, [('release', 1.0), ('dev', 0.3)], 1
     else:
-        nmax, kmax, nseq, variants, mult = 4, 5, 40000, [('release', 1.0), ('dev', 0.2)], 8
+        nmax, kmax, nseq, variants, mult = 5, 5, 40000, [('release', 1.0), ('dev', 0.2)], 8
     try:
         for variant, frac in variants:
             binary = build(variant)
